@@ -115,7 +115,10 @@ def make_config(rng):
                   lattice=0.0, leaves=LEAVES if rng.random() < 0.5 else LEAVES[:25],
                   containers=['list', 'tuple', 'dict', 'point'], explicit_tags=0.35,
                   dict_keys=['k', 'j', 3, (1, 'a'), None, ((1, 2), 'n')], uid=False,
-                  tagged_values=rng.random() < 0.3)
+                  tagged_values=rng.random() < 0.3,
+                  # (an unset positional slot in front of later positional values cannot be
+                  # written as a call: the generators have to refuse it)
+                  allow_gaps=use_pos and rng.random() < 0.5)
   g = gen.DagGen(rng, opts)
   root = g.dag(root_btype=rng.choice(['Config', 'Config', 'Partial']))
   # ArgFactory only directly under a Partial
